@@ -53,6 +53,8 @@ type Model struct {
 	// cookie of session #2") so that it stays meaningful on replay. Not needed when Apply resolves itself.
 	MaxDepth int
 	MaxDev   int
+	// Serial: the system uses process-global facilities (virtual tickers); explore on one worker.
+	Serial bool
 }
 
 type Stats struct {
@@ -96,7 +98,11 @@ func Explore(run *ev.Run, m Model) Stats {
 	for depth := 0; depth < m.MaxDepth && len(frontier) > 0; depth++ {
 		results := make([][]succ, len(frontier))
 		var stopped int32
-		par.For(len(frontier), func() bool {
+		pfor := par.For
+		if m.Serial {
+			pfor = par.Serial
+		}
+		pfor(len(frontier), func() bool {
 			if run.Expired() || run.Violations() > 20 {
 				atomic.StoreInt32(&stopped, 1)
 				return true
